@@ -700,7 +700,9 @@ class IASolverBaseClass:  # pylint: disable=R0902
         -----
         This is impacted by the self.P attribute.
         """
-        Qk = self._multiUserChannel.calc_Q(k, self.full_F)
+        # `k` may be any integer type, including a 0-dimensional array (the
+        # channel object builds a set of user indexes from it)
+        Qk = self._multiUserChannel.calc_Q(int(k), self.full_F)
         return Qk
 
     # This method must be tested in a subclass of IASolverBaseClass, since
@@ -727,6 +729,7 @@ class IASolverBaseClass:  # pylint: disable=R0902
         calc_Q
         """
         P = self.P
+        k = int(k)
         interfering_users = set(range(self.K)) - {k}
         Qk = np.zeros([self.Nt[k], self.Nt[k]], dtype=complex)
 
